@@ -15,12 +15,15 @@ import (
 // Verification hooks and accessors, compiled only with the `verif` build tag. They let a harness outside this
 // package (a) drive the unexported limitedSet and backoffConnector directly, (b) reach the ones a Discovery
 // owns, (c) move back-off deadlines into the past instead of waiting, (d) shorten the discovery retry period
-// and (e) observe -- and, by blocking inside the hook, gate -- the one point of limitedSet.Peers that no
-// injected interface exposes: between the emptiness check and the blocking select.
+// and (e) observe -- and, by blocking inside the hook, gate -- the points that no injected interface exposes.
 
-// VerifHook is called at every instrumented point: obj is the *limitedSet, ev the point's name
-// ("peers.empty": Peers found the set empty, released the read lock and is about to block). It may block.
-type VerifHook func(obj any, ev string)
+// VerifHook is called at every instrumented point. It may block (gate). Points:
+//
+//	"peers.empty"     obj *limitedSet: Peers found the set empty, released the read lock and is about to block
+//	"discover.enter"  obj *Discovery: the discovery loop is about to run one discover() round
+//	"discover.exit"   obj *Discovery: discover() returns (after waiting for its workers)
+//	"handle.exit"     obj *Discovery, id: the worker goroutine started for a discovered peer returns
+type VerifHook func(obj any, ev string, id peer.ID)
 
 var verifHook atomic.Pointer[VerifHook]
 
@@ -33,9 +36,9 @@ func VerifSetHook(h VerifHook) {
 	verifHook.Store(&h)
 }
 
-func verifEv(obj any, ev string) {
+func verifEv(obj any, ev string, id peer.ID) {
 	if h := verifHook.Load(); h != nil {
-		(*h)(obj, ev)
+		(*h)(obj, ev, id)
 	}
 }
 
